@@ -189,11 +189,16 @@ func runC12(r *simkit.Run) {
 			r.Fail("validator-set-not-intended", "endblock", "h=%d validator set after folding updates is %s, intended (config pos %d) %s", b.Height, renderPM(got), pos, renderPM(want))
 		}
 		if len(ups) > 0 && fromCfg {
+			// "checked-in" is a fact about keypers, not about key bytes: a keyper may register the
+			// placeholder's own key (legal 32 bytes), and its power is then still its own
 			var real, total int64
-			for k, p := range got {
+			for _, p := range got {
 				total += p
-				if k != app.NonExistentValidator.Ed25519pubkey {
-					real += p
+			}
+			real = total
+			for _, k := range ref.configs[pos].Keypers {
+				if _, ok := ref.identity[k]; !ok {
+					real -= 10
 				}
 			}
 			if real*3 <= total*2 {
